@@ -6,7 +6,20 @@
    (plain-named) input tables, every settings list of term-frequency columns, every tree
    variant [fx] and EVERY finite history of public operations (induction over
    [fold_left step ops s0]).  [hist_ok] is the explicit boolean guard that excludes the finding
-   classes; each class has its own [_refuted] theorem below. *)
+   classes; each class has its own [_refuted] theorem below.
+
+   WHAT [hist_ok] / [op_ok_hashed] EXCLUDE (all positive theorems):
+     - ChangeInput (rows changed without invalidate_cache), SecondLinker (two linkers on one DatabaseAPI), SetDebug,
+       InvalidateKeepingResults (a model variant, not the code): refuted below;
+     - RegisterTFOverwrite (register_term_frequency_lookup(..., overwrite=True)) on EVERY tree variant, also the repaired one
+       (fx718 = true): the operation changes registered data in place.  The unrepaired variant is refuted
+       (C07_predict_equals_fresh_refuted_lookup_overwrite); the repaired variant is covered only by the closed Example
+       C07_lookup_overwrite_repaired and by X (witness replayed on every run), NOT by a theorem;
+     - FindMatchesTable (find_matches_to_new_records given a table NAME whose rows the caller replaces between searches):
+       the table is read by earlier cached results, so refilling it is an input change without invalidate_cache and
+       C07_hashed_entries_sound is genuinely false afterwards (the earlier __splink__find_matches_predictions stays cached
+       with the old rows; it is never served because that pipeline runs with use_cache=False).  Covered by X only
+       (dedicated scenario: trace vs model and output vs fresh linker). *)
 From Coq Require Import List Bool Arith String.
 From Splinkv Require Import Model.Cache Proofs.CacheP.
 Import ListNotations.
@@ -127,7 +140,39 @@ Section C07.
   Proof.
     intros. rewrite <- c2_spec_all_registered by auto. apply compare_two_correct; auto. apply run_inv2; auto. apply init_inv2; auto.
   Qed.
+
+  (* the model's fresh linker [fresh_of s uid' luid'] (new DatabaseAPI, same input rows, saved model, the currently
+     registered lookups registered again) observes what the history's state observes - no hypothesis left to the user *)
+  Theorem C07_fresh_linker_observes_the_same :
+    forall inputs ver tfcols params uid luid fx ops uid' luid',
+      inputs_plain inputs ->
+      hist_ok K keqb hash (init_state K inputs ver tfcols params uid luid fx) ops = true ->
+      let s := run K keqb hash (init_state K inputs ver tfcols params uid luid fx) ops in
+      obs K keqb (fresh_of K keqb s uid' luid') = obs K keqb s.
+  Proof.
+    intros inputs ver tfcols params uid luid fx ops uid' luid' Hp Hok s. apply (obs_fresh_of K keqb keqb_spec).
+    destruct (run_inv K keqb hash keqb_spec hash_inj ops _ (hist_ok_hashed K keqb hash ops _ Hok)
+                      (init_inv K keqb hash inputs ver tfcols params uid luid fx Hp)) as (_ & _ & Hi & _).
+    fold s in Hi. rewrite Hi. exact Hp.
+  Qed.
+
+  (* hence predict() after the history is the closed form evaluated on that fresh linker's state.  (That executing
+     predict ON the fresh state yields its closed form is C07_predict_equals_fresh for the fresh linker written as a
+     history - init_state + registrations - and is recomputed for [fresh_of] inside Coq by X on every generated case.) *)
+  Theorem C07_predict_is_the_fresh_linkers_closed_form :
+    forall inputs ver tfcols params uid luid fx ops uid' luid',
+      inputs_plain inputs ->
+      hist_ok K keqb hash (init_state K inputs ver tfcols params uid luid fx) ops = true ->
+      let s := run K keqb hash (init_state K inputs ver tfcols params uid luid fx) ops in
+      result_prov K keqb hash s Predict = predict_spec K keqb (fresh_of K keqb s uid' luid').
+  Proof.
+    intros inputs ver tfcols params uid luid fx ops uid' luid' Hp Hok s.
+    pose proof (predict_spec_obs K keqb _ _ (C07_fresh_linker_observes_the_same inputs ver tfcols params uid luid fx ops uid' luid' Hp Hok)) as E.
+    fold s in E. rewrite E. apply C07_predict_is_a_function_of_data_model_lookups; auto.
+  Qed.
 End C07.
+Print Assumptions C07_fresh_linker_observes_the_same.
+Print Assumptions C07_predict_is_the_fresh_linkers_closed_form.
 Print Assumptions C07_compare_two_records_follows_the_tf_route.
 Print Assumptions C07_compare_two_records_registered_lookups_have_priority.
 Print Assumptions C07_db_fallback_unreachable.
@@ -138,7 +183,11 @@ Print Assumptions C07_predict_equals_fresh.
 Print Assumptions C07_invalidate_reflects_new_data.
 
 (* realtime.compare_records: with include_found_by_blocking_rules in the cache key (repaired tree)
-   every call, cached or not, runs SQL generated for its own flag - for every sequence of calls *)
+   every call, cached or not, runs SQL generated for its own flag - for every sequence of calls.
+   SCOPE: the theorem is about the FLAG only.  The settings identity is part of the key by construction of the model
+   ([rc_settings]); how that identity is computed (id() of a SettingsCreator, json of a dict, a path string, weakref
+   expiry, the dialect) is not modelled - sequences over several settings objects / dicts, both flags and both cache
+   modes are compared with an uncached reference by X only. *)
 Theorem C07_realtime_cache_transparent :
   forall cs, Forall2 (fun c out => fst out = rc_flag c) cs (rt_run true [] cs).
 Proof. intros. apply rt_transparent. intros k v []. Qed.
@@ -193,6 +242,7 @@ Theorem C07_input_change_without_invalidate_refuted :
 Proof.
   exists [Predict; ChangeInput 1]. split; [vm_compute; reflexivity|]. cbv zeta. intros H. vm_compute in H. discriminate H.
 Qed.
+Print Assumptions C07_input_change_without_invalidate_refuted.
 
 (* the fallback becomes reachable - and returns stale rows - as soon as a cleanup leaves a result table behind:
    MODEL VARIANT [InvalidateKeepingResults] = an invalidate_cache that clears the cache but keeps the
